@@ -45,12 +45,13 @@ structure Prog (s0 : State) (P : List ObjId) (s : State) : Prop where
   markedCached : ∀ k j, marked s k → s0.cache.get k = some j →
     marked s0 k ∨ (s0.objs j).status ≠ .ghost
   ghostStays : ∀ j, (s0.objs j).status = .ghost → (s.objs j).status = .ghost
+  ghostSerial : ∀ j, (s0.objs j).status = .ghost → (s.objs j).serial = (s0.objs j).serial
 
 theorem Prog.refl {s : State} (h : Str [] s) : Prog s [] s := by
   refine ⟨h, h, rfl, rfl, Nat.le_refl _, fun _ _ h => h, fun _ _ => ⟨rfl, rfl, rfl⟩, fun _ h => h,
     fun _ h => h, ?_, fun _ _ h => h, fun _ _ h => Or.inl h, fun _ _ h => h, fun _ h => Or.inl h, rfl,
     fun _ _ => Or.inl rfl, fun _ _ _ => rfl, fun _ => Or.inl rfl, ?_, fun _ _ => rfl,
-    fun _ _ _ => rfl, fun _ _ h _ => Or.inl h, fun _ h => h⟩
+    fun _ _ _ => rfl, fun _ _ h _ => Or.inl h, fun _ h => h, fun _ _ => rfl⟩
   · intro i k h1 h2; rw [h1] at h2; cases h2
   · intro j hj; cases hj
 
@@ -790,6 +791,21 @@ theorem storeOne_prog {s0 s : State} {i k : Nat} {rest : List Nat} {s3 : State} 
       · exact hl (hnorec (Or.inr ⟨k, hP.addedSub k j h1⟩) hgs)
       · exact hl (hnorec (Or.inl h1) hgs)
     · rw [h.2.2.2.1]; exact hgs
+  · -- ghostSerial
+    intro j hg0
+    have hgs := hP.ghostStays j hg0
+    rw [← hP.ghostSerial j hg0]
+    rcases hobj j with h | h | h
+    · rw [h]
+    · exfalso
+      have hji := h.1
+      subst hji
+      have hl := h.2.2.2.2.2.1 hgs
+      rcases hknown with h1 | h1 | h1
+      · exact h1.2 hg0
+      · exact hl (hnorec (Or.inr ⟨k, hP.addedSub k j h1⟩) hgs)
+      · exact hl (hnorec (Or.inl h1) hgs)
+    · rw [h.2.2.2.1]
 
 /-! ### the `finally` clause: what is left on the stack after an error is disowned -/
 
@@ -928,6 +944,10 @@ theorem disownPending_prog {s0 s : State} {j : Nat} {P : List Nat}
     by_cases hxj : x = j
     · subst hxj; rw [hj]; exact hg
     · rw [hobj x hxj]; exact hP.ghostStays x hg
+  · intro x hg
+    by_cases hxj : x = j
+    · subst hxj; rw [hj]
+    · rw [hobj x hxj]; exact hP.ghostSerial x hg
 
 theorem dropStack_prog {s0 : State} : ∀ (P : List Nat) (s : State), Prog s0 P s →
     (∀ j ∈ P, (s0.objs j).oid = none) → P.Nodup → Prog s0 [] (dropStack s P) := by
